@@ -76,24 +76,43 @@ def clip_box_at(vfont, glyph, user_loc):
 
 
 def run_case(job):
-    i, seed, nmasters, default_idx = job
+    i, seed, nmasters, default_idx = job[:4]
+    variant = job[4] if len(job) > 4 else "weight"
     rng = random.Random(seed)
+    if variant == "slant":
+        # the default is 0 and is NOT the lowest position
+        nmasters, default_idx = 2, 0
+        axes, names = [("slnt", "Slant")], ["upright", "slanted"]
+        locs = [{"slnt": 0}, {"slnt": -12}]
+    elif variant == "two-axes":
+        # axes declared in an order that is not the alphabetical order of their tags
+        nmasters, default_idx = 3, 0
+        axes, names = [("wght", "Weight"), ("wdth", "Width")], ["thin", "black", "wide"]
+        locs = [{"wght": 100, "wdth": 100}, {"wght": 900, "wdth": 100}, {"wght": 100, "wdth": 125}]
+    else:
+        positions = [100, 400, 700, 900][:nmasters] if nmasters > 2 else [400, 700]
+        if i % 2 == 0:  # registered width-style values are fractional (62.5, 87.5, 112.5)
+            positions = [62.5, 87.5, 100, 112.5][:nmasters] if nmasters > 2 else [87.5, 112.5]
+        names = ["thin", "regular", "bold", "black"][:nmasters] if nmasters > 2 else ["regular", "bold"]  # config order is not name order
+        axes = [("wght", "Weight")]
+        locs = [{"wght": p_} for p_ in positions]
     docs = gen_masters(rng, nmasters)
-    positions = [100, 400, 700, 900][:nmasters] if nmasters > 2 else [400, 700]
-    if i % 2 == 0:  # registered width-style values are fractional (62.5, 87.5, 112.5)
-        positions = [62.5, 87.5, 100, 112.5][:nmasters] if nmasters > 2 else [87.5, 112.5]
-    names = ["thin", "regular", "bold", "black"][:nmasters] if nmasters > 2 else ["regular", "bold"]  # config order is not name order
     upem = rng.choice([1000, 1024])
-    res = dict(case=i, masters=nmasters, positions=positions, default=positions[default_idx], sources=[d[0] for d in docs])
+    res = dict(case=i, variant=variant, masters=nmasters, positions=[tuple(l.values()) for l in locs], default=tuple(locs[default_idx].values()), sources=[d[0] for d in docs])
+
+    def axis_toml(default_loc):
+        return "".join(f'[axis.{tag}]\nname = "{name}"\ndefault = {default_loc[tag]}\n' for tag, name in axes)
+
+    def master_toml(m):
+        return f'[master.{names[m]}]\nstyle_name = "{names[m]}"\nsrcs = ["{names[m]}/*.svg"]\n[master.{names[m]}.position]\n' + "".join(f"{tag} = {locs[m][tag]}\n" for tag, _ in axes)
+
     with scratch_dir("verif-c18-") as d:
         for m, md in enumerate(docs):
             (d / names[m]).mkdir()
             for k, text in enumerate(md):
                 (d / names[m] / f"emoji_u{0x1F600 + k:x}.svg").write_text(text)
         common_opts = f'color_format = "glyf_colr_1"\nupem = {upem}\nascender = {int(upem * 0.8)}\ndescender = {-int(upem * 0.2)}\nwidth = {upem}\nreuse_tolerance = -1.0\n'
-        vf = common_opts + 'output_file = "VF.ttf"\n' + f'[axis.wght]\nname = "Weight"\ndefault = {positions[default_idx]}\n'
-        for m in range(nmasters):
-            vf += f'[master.{names[m]}]\nstyle_name = "{names[m]}"\nsrcs = ["{names[m]}/*.svg"]\n[master.{names[m]}.position]\nwght = {positions[m]}\n'
+        vf = common_opts + 'output_file = "VF.ttf"\n' + axis_toml(locs[default_idx]) + "".join(master_toml(m) for m in range(nmasters))
         (d / "vf.toml").write_text(vf)
         rc, out = build.run_cli(["--build_dir", d / "build_vf", d / "vf.toml"], cwd=d)
         res["exit_vf"] = rc
@@ -103,7 +122,7 @@ def run_case(job):
         vfont_path = d / "build_vf" / "VF.ttf"
         statics, static_clips = [], []
         for m in range(nmasters):
-            st = common_opts + f'output_file = "S{m}.ttf"\n[axis.wght]\nname = "Weight"\ndefault = {positions[m]}\n[master.{names[m]}]\nstyle_name = "{names[m]}"\nsrcs = ["{names[m]}/*.svg"]\n[master.{names[m]}.position]\nwght = {positions[m]}\n'
+            st = common_opts + f'output_file = "S{m}.ttf"\n' + axis_toml(locs[m]) + master_toml(m)
             (d / f"s{m}.toml").write_text(st)
             rc, out = build.run_cli(["--build_dir", d / f"build_s{m}", d / f"s{m}.toml"], cwd=d)
             if rc != 0:
@@ -113,6 +132,7 @@ def run_case(job):
             sf = load(d / f"build_s{m}" / f"S{m}.ttf")
             statics.append(glyph_pictures(sf))
             static_clips.append({g: (b.xMin, b.yMin, b.xMax, b.yMax) for g, b in (sf["COLR"].table.ClipList.clips.items() if sf["COLR"].table.ClipList else [])})
+        from fontTools import ttLib
         from fontTools.varLib import instancer
 
         probs = []
@@ -121,17 +141,31 @@ def run_case(job):
             probs.append("no fvar table")
             res["problems"] = probs
             return res
-        ax = vfont["fvar"].axes[0]
-        if (ax.minValue, ax.defaultValue, ax.maxValue) != (min(positions), positions[default_idx], max(positions)):
-            probs.append(f"axis range {(ax.minValue, ax.defaultValue, ax.maxValue)} != {(min(positions), positions[default_idx], max(positions))}")
-        # default location = default master, without instancing
+        by_tag = {ax.axisTag: ax for ax in vfont["fvar"].axes}
+        for tag, _ in axes:
+            vals = [l[tag] for l in locs]
+            want = (min(vals), locs[default_idx][tag], max(vals))
+            ax = by_tag.get(tag)
+            if ax is None or (ax.minValue, ax.defaultValue, ax.maxValue) != want:
+                probs.append(f"axis {tag} range {(ax.minValue, ax.defaultValue, ax.maxValue) if ax else None} != {want}")
+        # the default location, without instancing, is the default master
+        for cp, (g, pic, p1, adv) in glyph_pictures(vfont).items():
+            sg, spic, p2, sadv = statics[default_idx][cp]
+            pp = p1 + p2 + picture.compare_pictures(spic, pic, eps=2.5, palette_check=False)
+            if adv != sadv:
+                pp.append(f"advance {adv} != static {sadv}")
+            probs += [f"default location (not instanced) vs master {names[default_idx]}, U+{cp:X}: {x}" for x in pp[:2]]
         # every master location reproduces the static build of that master
         for m in range(nmasters):
-            inst = instancer.instantiateVariableFont(load(vfont_path), {"wght": positions[m]})
+            if probs:
+                break
+            try:
+                inst = instancer.instantiateVariableFont(load(vfont_path), dict(locs[m]))
+            except Exception as ex:
+                probs.append(f"master {names[m]} at {locs[m]} cannot be instantiated: {type(ex).__name__}: {ex}")
+                break
             buf = io.BytesIO()
             inst.save(buf)
-            from fontTools import ttLib
-
             inst = ttLib.TTFont(io.BytesIO(buf.getvalue()), lazy=False)
             got = glyph_pictures(inst)
             for cp, (g, pic, p1, adv) in got.items():
@@ -139,14 +173,19 @@ def run_case(job):
                 pp = p1 + p2 + picture.compare_pictures(spic, pic, eps=2.5, palette_check=False)
                 if adv != sadv:
                     pp.append(f"advance {adv} != static {sadv}")
-                cb = clip_box_at(vfont, g, {"wght": positions[m]})
+                cb = clip_box_at(vfont, g, dict(locs[m]))
                 if cb is not None and tuple(round(v) for v in cb) != static_clips[m].get(sg):
                     pp.append(f"clip box {tuple(round(v) for v in cb)} != static {static_clips[m].get(sg)}")
-                probs += [f"master {names[m]} (wght {positions[m]}), U+{cp:X}: {x}" for x in pp[:2]]
-        # intermediate locations: the clip box in force contains the interpolated geometry
+                probs += [f"master {names[m]} ({locs[m]}), U+{cp:X}: {x}" for x in pp[:2]]
+        # intermediate locations along the first axis: the clip box in force contains the interpolated geometry
+        tag0 = axes[0][0]
+        lo, hi = min(l[tag0] for l in locs), max(l[tag0] for l in locs)
         for t in (0.3, 0.5, 0.8):
-            w = min(positions) + t * (max(positions) - min(positions))
-            inst = instancer.instantiateVariableFont(load(vfont_path), {"wght": w})
+            if probs:
+                break
+            loc = dict(locs[default_idx])
+            loc[tag0] = lo + t * (hi - lo)
+            inst = instancer.instantiateVariableFont(load(vfont_path), dict(loc))
             buf = io.BytesIO()
             inst.save(buf)
             inst = ttLib.TTFont(io.BytesIO(buf.getvalue()), lazy=False)
@@ -154,13 +193,13 @@ def run_case(job):
                 pts = [p for it, _ in picture.flatten(pic) for poly in it[1] for p in poly]
                 if not pts:
                     continue
-                b = clip_box_at(vfont, g, {"wght": w})
+                b = clip_box_at(vfont, g, dict(loc))
                 if b is None:
-                    probs.append(f"wght {w}: no clip box for {g}")
+                    probs.append(f"{loc}: no clip box for {g}")
                     continue
                 x0, y0, x1, y1 = min(p[0] for p in pts), min(p[1] for p in pts), max(p[0] for p in pts), max(p[1] for p in pts)
                 if x0 < b[0] - 2 or y0 < b[1] - 2 or x1 > b[2] + 2 or y1 > b[3] + 2:
-                    probs.append(f"wght {w}: clip box {tuple(round(v, 1) for v in b)} cuts geometry {(round(x0), round(y0), round(x1), round(y1))} of {g}")
+                    probs.append(f"{loc}: clip box {tuple(round(v, 1) for v in b)} cuts geometry {(round(x0), round(y0), round(x1), round(y1))} of {g}")
         res["problems"] = probs
         return res
 
@@ -199,11 +238,14 @@ def main(argv):
     for i in range(n):
         nm = 2 if i % 2 == 0 else 3
         jobs.append((i, rng.randrange(10**9), nm, rng.randrange(nm)))
+    jobs.append((n, rng.randrange(10**9), 2, 0, "slant"))
+    jobs.append((n + 1, rng.randrange(10**9), 3, 0, "two-axes"))
     with ThreadPoolExecutor(max_workers=4) as ex:
         results = list(ex.map(run_case, jobs))
     for r in results:
         report.count(("vf", r["masters"], tuple(r["positions"]), r["default"], tuple(r["sources"])), True, r["masters"] + 3)
         report.hist("masters", r["masters"])
+        report.hist("variant", r.get("variant", "weight"))
         if r.get("exit_vf", 0) != 0 or r.get("exit_static", 0) != 0:
             report_failure(report, f"build_{r['case']}", dict(kind="e2e-cli", case={k: str(v)[:1500] for k, v in r.items()}, problem="a compatible multi-master configuration failed to build"))
             break
